@@ -165,6 +165,7 @@ type c35Result struct {
 	wagePaid   int
 	capped     int // P-Reps whose accumulated power < accumulated votes (bond requirement bites)
 	unregPaid  bool
+	newcomer   bool // the address registered in the term ends it enabled with accumulated power > 0
 }
 
 // c35Exec runs one case through the real calculator and evaluates the oracle.
@@ -356,6 +357,9 @@ func c35Exec(c *c35Case) (res c35Result) {
 		}
 		if wage[i].Sign() > 0 {
 			res.wagePaid++
+		}
+		if i == 3 && p.Status() == icmodule.ESEnable && p.AccumulatedPower().Sign() > 0 {
+			res.newcomer = true
 		}
 		if p.AccumulatedPower().Cmp(p.AccumulatedVoted()) < 0 && p.AccumulatedPower().Sign() > 0 {
 			res.capped++
@@ -728,12 +732,94 @@ func c35EventSeqs(base *c35Case, maxVotes, maxEnable int, skipEmpty bool, fn fun
 	rec(nil, 0)
 }
 
+// c35NewcomerActions: votes to P3, the address that registers as a P-Rep during the term.
+func c35NewcomerActions() []c35VoteAction {
+	s := func(v *big.Int) string { return v.String() }
+	neg := func(v *big.Int) string { return new(big.Int).Neg(v).String() }
+	type curFn = func(from, to, kind int) *big.Int
+	return []c35VoteAction{
+		{"V0 delegates +10^5 ICX to newcomer P3", c35V0, c35KDeleg, func(cur curFn) []c35Vote {
+			return []c35Vote{{3, s(c35Icx(100000))}}
+		}},
+		{"V1 bonds +10^4 ICX to newcomer P3", c35V1, c35KBond, func(cur curFn) []c35Vote {
+			return []c35Vote{{3, s(c35Icx(10000))}}
+		}},
+		{"V1 bonds +1 ICX to newcomer P3", c35V1, c35KBond, func(cur curFn) []c35Vote {
+			return []c35Vote{{3, s(c35Icx(1))}}
+		}},
+		{"V0 moves its delegation from P0 to newcomer P3", c35V0, c35KDeleg, func(cur curFn) []c35Vote {
+			x := cur(c35V0, 0, c35KDeleg)
+			if x.Sign() == 0 {
+				return nil
+			}
+			return []c35Vote{{0, neg(x)}, {3, s(x)}}
+		}},
+		{"V1 withdraws its bond to newcomer P3", c35V1, c35KBond, func(cur curFn) []c35Vote {
+			x := cur(c35V1, 3, c35KBond)
+			if x.Sign() == 0 {
+				return nil
+			}
+			return []c35Vote{{3, neg(x)}}
+		}},
+	}
+}
+
+// c35NewcomerSeqs: exactly one EventEnable(P3, ESEnable) (P3 has no Voted entry in the base: a
+// P-Rep registration inside the term) at every offset, combined with every legal sequence of
+// 1..maxVotes newcomer vote events with non-decreasing offsets (before, at or after the registration).
+func c35NewcomerSeqs(base *c35Case, maxVotes int, fn func(evs []c35Event)) {
+	acts := c35NewcomerActions()
+	offs := c35Offsets(base.Limit)
+	cur := map[[3]int]*big.Int{}
+	for _, b := range base.Base {
+		cur[[3]int{b.From, b.To, b.Kind}] = c35Big(b.Amt)
+	}
+	get := func(from, to, kind int) *big.Int {
+		if x := cur[[3]int{from, to, kind}]; x != nil {
+			return x
+		}
+		return new(big.Int)
+	}
+	emit := func(evs []c35Event) {
+		for _, o := range offs {
+			fn(append(append([]c35Event(nil), evs...), c35Event{Kind: c35KEnable, Off: o, Target: 3, Status: int(icmodule.ESEnable),
+				Name: "P3 registers as P-Rep (status -> Enable)"}))
+		}
+	}
+	var rec func(evs []c35Event, minOffIdx int)
+	rec = func(evs []c35Event, minOffIdx int) {
+		if len(evs) > 0 {
+			emit(evs)
+		}
+		if len(evs) >= maxVotes {
+			return
+		}
+		for oi := minOffIdx; oi < len(offs); oi++ {
+			for _, a := range acts {
+				votes := a.gen(get)
+				if votes == nil {
+					continue
+				}
+				for _, v := range votes {
+					cur[[3]int{a.from, v.To, a.kind}] = new(big.Int).Add(get(a.from, v.To, a.kind), c35Big(v.Amt))
+				}
+				rec(append(append([]c35Event(nil), evs...), c35Event{Kind: a.kind, Off: offs[oi], From: a.from, Votes: votes, Name: a.name}), oi)
+				for _, v := range votes {
+					cur[[3]int{a.from, v.To, a.kind}] = new(big.Int).Sub(get(a.from, v.To, a.kind), c35Big(v.Amt))
+				}
+			}
+		}
+	}
+	rec(nil, 0)
+}
+
 type c35Family struct {
 	name      string
 	configs   []*c35Case
 	maxVotes  int
 	maxEnable int
 	skipEmpty bool // the empty history of these configurations is covered by family A0
+	newcomer  bool // family N: histories are produced by c35NewcomerSeqs
 }
 
 func c35Commissions(all bool) [][c35NP]int64 {
@@ -791,20 +877,23 @@ func c35Families(thorough bool) []c35Family {
 	if !thorough {
 		return []c35Family{
 			// A0: no events, broad configuration product
-			{"A0", mk("A0", []int{1, 2, 3}, []int64{0, 500}, []int{0, term}, full, lat, c35Statuses(6)), 0, 0, false},
+			{"A0", mk("A0", []int{1, 2, 3}, []int64{0, 500}, []int{0, term}, full, lat, c35Statuses(6)), 0, 0, false, false},
 			// A1: exactly one vote event
-			{"A1", mk("A1", []int{2, 3}, []int64{0, 500}, []int{term}, full, lat[:1], c35Statuses(3)), 1, 0, true},
+			{"A1", mk("A1", []int{2, 3}, []int64{0, 500}, []int{term}, full, lat[:1], c35Statuses(3)), 1, 0, true, false},
 			// AE: exactly one enable event
-			{"AE", mk("AE", []int{2, 3}, []int64{500}, []int{term}, full, lat[:1], c35Statuses(6)), 0, 1, true},
+			{"AE", mk("AE", []int{2, 3}, []int64{500}, []int{term}, full, lat[:1], c35Statuses(6)), 0, 1, true, false},
 			// B: <=2 vote events and <=1 enable event
-			{"B", mk("B", []int{2, 3}, []int64{500}, []int{term}, c35BaseTables(2), lat[:1], c35Statuses(2)), 2, 1, true},
+			// N: a P-Rep registers inside the term (enable event for an address without Voted entry) and is voted for
+			{"N", mk("N", []int{2, 3}, []int64{0, 500}, []int{term}, c35BaseTables(2), lat[:1], c35Statuses(2)), 2, 1, true, true},
+			{"B", mk("B", []int{2, 3}, []int64{500}, []int{term}, c35BaseTables(2), lat[:1], c35Statuses(2)), 2, 1, true, false},
 		}
 	}
 	return []c35Family{
-		{"A0", mk("A0", []int{0, 1, 2, 3, 4}, []int64{0, 500, 10000}, []int{0, 1, term}, full, c35Commissions(true), c35Statuses(6)), 0, 0, false},
-		{"A1", mk("A1", []int{1, 2, 3, 4}, []int64{0, 500, 10000}, []int{1, term}, full, lat, c35Statuses(6)), 1, 0, true},
-		{"AE", mk("AE", []int{1, 2, 3, 4}, []int64{0, 500}, []int{1, term}, full, lat, c35Statuses(6)), 0, 1, true},
-		{"B", mk("B", []int{1, 2, 3, 4}, []int64{0, 500}, []int{1, term}, narrow, lat[:1], c35Statuses(2)), 2, 1, true},
+		{"A0", mk("A0", []int{0, 1, 2, 3, 4}, []int64{0, 500, 10000}, []int{0, 1, term}, full, c35Commissions(true), c35Statuses(6)), 0, 0, false, false},
+		{"A1", mk("A1", []int{1, 2, 3, 4}, []int64{0, 500, 10000}, []int{1, term}, full, lat, c35Statuses(6)), 1, 0, true, false},
+		{"AE", mk("AE", []int{1, 2, 3, 4}, []int64{0, 500}, []int{1, term}, full, lat, c35Statuses(6)), 0, 1, true, false},
+		{"N", mk("N", []int{1, 2, 3, 4}, []int64{0, 500}, []int{1, term}, c35BaseTables(2), lat[:1], c35Statuses(2)), 3, 1, true, true},
+		{"B", mk("B", []int{1, 2, 3, 4}, []int64{0, 500}, []int{1, term}, narrow, lat[:1], c35Statuses(2)), 2, 1, true, false},
 	}
 }
 
@@ -833,7 +922,7 @@ func TestVerifC35(t *testing.T) {
 	}
 
 	fams := c35Families(r.Thorough())
-	var rewarded, voterPaid, multiPair, wagePaid, capped, unregPaid, nothing, herrs, enableHist, twoVote int64
+	var rewarded, voterPaid, multiPair, wagePaid, capped, unregPaid, nothing, herrs, enableHist, twoVote, newcomer int64
 	var stopped int32
 	var firstErr atomic.Value
 	famCounts := map[string]int64{}
@@ -857,7 +946,14 @@ func TestVerifC35(t *testing.T) {
 			}
 			base := fam.configs[i]
 			var local, lRew, lVot, lMulti, lWage, lCap, lUnreg, lNothing, lEn, lTwo int64
-			c35EventSeqs(base, fam.maxVotes, fam.maxEnable, fam.skipEmpty, func(evs []c35Event) {
+			enum := func(fn func(evs []c35Event)) {
+				if fam.newcomer {
+					c35NewcomerSeqs(base, fam.maxVotes, fn)
+				} else {
+					c35EventSeqs(base, fam.maxVotes, fam.maxEnable, fam.skipEmpty, fn)
+				}
+			}
+			enum(func(evs []c35Event) {
 				if atomic.LoadInt32(&stopped) != 0 {
 					return
 				}
@@ -914,6 +1010,9 @@ func TestVerifC35(t *testing.T) {
 				if res.capped > 0 {
 					lCap++
 				}
+				if res.newcomer {
+					atomic.AddInt64(&newcomer, 1)
+				}
 				if res.unregPaid {
 					lUnreg++
 					if sampleCase2.Load() == nil {
@@ -960,6 +1059,7 @@ func TestVerifC35(t *testing.T) {
 	r.Set("cases_with_wage", wagePaid)
 	r.Set("cases_where_bond_requirement_caps_power", capped)
 	r.Set("cases_where_address_registered_in_term_is_credited", unregPaid) // expected 0: it is not ranked
+	r.Set("cases_where_address_registered_in_term_has_power", newcomer)
 	r.Set("cases_without_any_reward", nothing)
 	r.Set("cases_with_enable_event", enableHist)
 	r.Set("cases_with_two_vote_events", twoVote)
@@ -967,7 +1067,7 @@ func TestVerifC35(t *testing.T) {
 	if e := firstErr.Load(); e != nil {
 		r.Sanity(false, "calculation could not be evaluated in %d cases, first: %v", herrs, e)
 	}
-	r.Sanity(r.Violations() > 0 || rewarded > 0 && voterPaid > 0 && multiPair > 0 && wagePaid > 0 && capped > 0 && nothing > 0 && enableHist > 0 && twoVote > 0,
+	r.Sanity(r.Violations() > 0 || rewarded > 0 && voterPaid > 0 && multiPair > 0 && wagePaid > 0 && capped > 0 && nothing > 0 && enableHist > 0 && twoVote > 0 && newcomer > 0,
 		"vacuity: rewarded=%d voterPaid=%d multiPair=%d wage=%d capped=%d nothing=%d enable=%d twoVote=%d",
 		rewarded, voterPaid, multiPair, wagePaid, capped, nothing, enableHist, twoVote)
 	if s := sampleCase.Load(); s != nil {
